@@ -119,17 +119,22 @@ func (ctx *MetricContext) handleResponse(resp *protoCommonV1.TaskResponse, fromN
 		ctx.aggregatorSpecs[spec.FieldName] = spec
 	}
 
-	if ctx.groupAgg == nil {
-		AggregatorSpecs := make(aggregation.AggregatorSpecs, len(tsList.FieldAggSpecs))
-		for idx, aggSpec := range tsList.FieldAggSpecs {
-			AggregatorSpecs[idx] = aggregation.NewAggregatorSpec(
-				field.Name(aggSpec.FieldName),
-				field.Type(aggSpec.FieldType),
-			)
-			for _, funcType := range aggSpec.FuncTypeList {
-				AggregatorSpecs[idx].AddFunctionType(function.FuncType(funcType))
-			}
+	AggregatorSpecs := make(aggregation.AggregatorSpecs, len(tsList.FieldAggSpecs))
+	for idx, aggSpec := range tsList.FieldAggSpecs {
+		AggregatorSpecs[idx] = aggregation.NewAggregatorSpec(
+			field.Name(aggSpec.FieldName),
+			field.Type(aggSpec.FieldType),
+		)
+		for _, funcType := range aggSpec.FuncTypeList {
+			AggregatorSpecs[idx].AddFunctionType(function.FuncType(funcType))
 		}
+	}
+	if ctx.groupAgg != nil {
+		// a node reports the fields it knows: a later response may carry fields the first one did not
+		for _, aggSpec := range AggregatorSpecs {
+			ctx.groupAgg.AddAggregatorSpec(aggSpec)
+		}
+	} else {
 		ctx.groupAgg = newGroupingAgg(
 			timeutil.Interval(ctx.interval),
 			1, // interval ratio is 1 when do merge result.
